@@ -1003,6 +1003,34 @@ pub fn run(args: &Args, out: &mut Out) {
         c.dst = g.addr(b);
         run_case(&c, out);
     }
+    // 7a. UDP datagrams whose checksum COMPUTES to zero (RFC 768 / RFC 8200: the field then carries 0xFFFF over IPv6; over IPv4
+    //     zero would mean "no checksum"): for classic and Dublin probes of both families the varying port is searched until the
+    //     datagram the real dispatch produces has a computed checksum of 0
+    for cell in [Cell::UdpClassic, Cell::UdpDublin] {
+        for v6 in [false, true] {
+            for _ in 0..(if thorough { 6 } else { 2 }) {
+                let sz = *g.rng.pick(&[60u16, 61, 84]);
+                let mut c = g.case(cell, v6, sz);
+                if !in_range(&c) { continue; }
+                if cell == Cell::UdpDublin && v6 { c.iseq = 33434; c.seq = 33434 + g.rng.below(200) as u16; c.id = c.seq; }
+                let mut found = false;
+                for dp in 1024u16..=65535 {
+                    c.dp = dp;
+                    let (ops, res) = execute(&c);
+                    if res != "ok" { break; }
+                    let Some((bytes, _)) = sendtos(&ops).first().copied() else { break };
+                    let u: Vec<u8> = if v6 { bytes.clone() } else { bytes[20.min(bytes.len())..].to_vec() };
+                    if u.len() < 8 { break; }
+                    let mut z = u.clone();
+                    z[6] = 0; z[7] = 0;
+                    let ps = if v6 { pseudo_v6(&c.src, &c.dst, 17, z.len()) } else { pseudo_v4(&c.src, &c.dst, 17, z.len()) };
+                    // the one's-complement sum of pseudo-header + datagram (checksum field zero) is 0xFFFF <=> the checksum computes to 0
+                    if oc_sum(&[&ps, &z]) == 0xFFFF { found = true; break; }
+                }
+                if found { g.count("udp_checksum_computes_to_zero"); run_case(&c, out); }
+            }
+        }
+    }
     // 7b. several probes on one channel: repeated, alternating and ascending ttls; consecutive sequences (a round, a
     //     single-hop round repeated, a TCP re-issue with the same ttl)
     let reps = if thorough { 200 } else { 12 };
